@@ -30,6 +30,8 @@ func c01Scenario() *Scenario {
 	}
 	s.Actions = append(s.Actions,
 		one("brec(W1,#1,submit_time=0)", model.Tx{Msgs: []model.Msg{{Kind: model.BcnRec, From: "W1", ID: 1, S: []string{"0xzero"}, T: 0}}, Fee: fee(5)}),
+		// a submit time far ahead of any node's clock (the only other input that can be compared with "now")
+		one("brec(W1,#1,submit_time=year 3000)", model.Tx{Msgs: []model.Msg{{Kind: model.BcnRec, From: "W1", ID: 1, S: []string{"0xfuture"}, T: 32_503_680_000}}, Fee: fee(5)}),
 		Action{Name: "grant(W1->O,brec+wpur+bpur)", Dt: ms, Txs: func(*model.State) []model.Tx {
 			return []model.Tx{{Msgs: []model.Msg{{Kind: model.AuthzGrant, From: "W1", To: "O", URL: model.BcnRec}, {Kind: model.AuthzGrant, From: "W1", To: "O", URL: model.WrkPur}, {Kind: model.AuthzGrant, From: "W1", To: "O", URL: model.BcnPur}}}}
 		}, Enabled: func(m *model.State, _ map[string]int) bool { return !m.Grants["W1|O|"+model.BcnRec] }},
